@@ -429,6 +429,35 @@ func runStack(id string, toks []string) (res string) {
 			} else {
 				emit(fmt.Sprintf("B=%d", r.status))
 			}
+		case "PSPLIT":
+			// PSPLIT:<c>:<other>:<aid.iid>  connection c subscribes to the characteristic with a write request whose body
+			// arrives after its headers; in between, connection <other> sends a plaintext GET /accessories
+			cc, oc := w.conns[p[1]], w.conns[p[2]]
+			if cc == nil || oc == nil || cc.dead || oc.dead {
+				emit("PSPLIT=noconn")
+				continue
+			}
+			ids := strings.Split(p[3], ".")
+			aid, _ := strconv.Atoi(ids[0])
+			iid, _ := strconv.Atoi(ids[1])
+			body, _ := json.Marshal(map[string]interface{}{"characteristics": []interface{}{map[string]interface{}{"aid": aid, "iid": iid, "ev": true}}})
+			other := "-"
+			r, err := cc.requestSplit("PUT", "/characteristics", "application/hap+json", body, func() {
+				saved, br := oc.secured, oc.br
+				oc.secured, oc.br = false, oc.raw
+				if ro, err := oc.request("GET", "/accessories", "", nil); err == nil {
+					other = fmt.Sprintf("%d,%s", ro.status, hasCanary(ro.body))
+				} else {
+					other = "closed"
+					oc.dead = true
+				}
+				oc.secured, oc.br = saved, br
+			})
+			if err != nil {
+				emit("PSPLIT=closed/" + other)
+			} else {
+				emit(fmt.Sprintf("PSPLIT=%d/%s", r.status, other))
+			}
 		case "STALL":
 			emit(w.stalledSubscriber(p[1], p[2], p[3], p[4]))
 		case "STORM":
